@@ -119,7 +119,7 @@ func fuzzChild(args []string) {
 		wd := time.AfterFunc(childTimeout, func() {
 			buf := make([]byte, 4<<20)
 			n := runtime.Stack(buf, true)
-			site := fatalSite("\n\n"+string(buf[:n]), true)
+			site := fatalSite("\n\n"+string(buf[:n]), false)
 			if site == "" {
 				site = f[0]
 			}
@@ -403,11 +403,11 @@ func shrinkFuzz(in string) []string {
 	return out
 }
 
-// fatalSite: for a goroutine dump written by a dying / interrupted child, the package in which the
-// first goroutine that is inside non-runtime, non-harness code was: for a hung child (SIGQUIT) the
-// package of its innermost frame (where it spins), for a stack exhaustion the package that owns
-// most of the printed frames (the recursion).  Function-level keys are not stable here (the
-// runtime elides the middle of a deep stack, the innermost function of a spinning parser varies).
+// fatalSite: for a goroutine dump of a hung or dying child: the third-party (non standard library)
+// package that owns most frames of the first goroutine that is inside such code - the recursion of
+// a stack exhaustion, the parser a hung input spins in.  Function-level keys and the innermost
+// frame are not stable here (the runtime elides the middle of a deep stack; a spinning parser is
+// caught in a different helper every time).
 func fatalSite(stderr string, innermost bool) string {
 	blocks := strings.Split(stderr, "\n\ngoroutine ")
 	fallback := ""
@@ -525,7 +525,7 @@ func execFuzz(in string) Result {
 		}
 		p.in.Close()
 		site := target
-		if fs := fatalSite(p.stderr.String(), true); fs != "" {
+		if fs := fatalSite(p.stderr.String(), false); fs != "" {
 			site = fs
 		}
 		p = spawnFuzzChild()
